@@ -107,6 +107,15 @@ def run(chk):
       if nops[-1]['tx'] == 'int_momentum':
         nops[-1]['tx'] = 'adam'
   ntss = [{'vars': gen_vars(rng), 'tx': rng.choice(txs), 'steps': rng.randint(1, 3)} for _ in range(60 if thorough else 10)]
+  for j, c in enumerate(ntss):
+    if j % 2 == 1:
+      # mixed precision: low-precision parameters, float32 gradients (the result keeps the parameter dtype, rounded once)
+      dt = rng.choice(['bf16', 'f16'])
+      for v in c['vars']:
+        v['dtype'] = dt
+        v['val'] = [rng.randint(-40, 40) / 7 for _ in range(24)]
+      c['wide_grads'] = True
+      c['tx'] = rng.choice(['sgd', 'momentum', 'adam', 'adamw'])
   metrics = []
   for n in range(1, 7 if thorough else 6):
     for rep in range(3 if thorough else 2):
